@@ -49,10 +49,14 @@ def call_inspection(sim, name):
     return conv(getattr(sim, name)())
 
 
-def riscv_snapshot(sim):
+def riscv_snapshot(sim, order=None):
+    """order: optional permutation of INSPECT_RISCV - the inspection functions are CALLED in that order, the
+    result is always reported in canonical order (so two snapshots taken with different call orders compare
+    equal iff no inspection influences another one)"""
     st = sim.state
     pm = st.performance_metrics
-    parts = [("inspect:" + n, call_inspection(sim, n)) for n in INSPECT_RISCV]
+    got = {n: call_inspection(sim, n) for n in (order or INSPECT_RISCV)}
+    parts = [("inspect:" + n, got[n]) for n in INSPECT_RISCV]
     parts += [
         ("pc", st.program_counter % (1 << 32)),
         ("counters", (pm.instruction_count, pm.branch_count, pm.procedure_count, pm.cycles, pm.flushes, pm.stalls)),
@@ -75,11 +79,12 @@ def call_toy_inspection(sim, name):
     return conv(getattr(sim, name)())
 
 
-def toy_snapshot(sim):
+def toy_snapshot(sim, order=None):
     st = sim.state
     pm = st.performance_metrics
     li = st.loaded_instruction
-    parts = [("inspect:" + n, call_toy_inspection(sim, n)) for n in INSPECT_TOY]
+    got = {n: call_toy_inspection(sim, n) for n in (order or INSPECT_TOY)}
+    parts = [("inspect:" + n, got[n]) for n in INSPECT_TOY]
     parts += [
         ("accu", int(st.accu)),
         ("pc", int(st.program_counter)),
